@@ -4,6 +4,7 @@ package rpdrv
 
 import (
 	"bufio"
+	"context"
 	"encoding/json"
 	"fmt"
 	"io"
@@ -17,7 +18,10 @@ import (
 	"sync"
 	"time"
 
+	jose "github.com/go-jose/go-jose/v4"
 	"golang.org/x/oauth2"
+
+	"verif/harness/modelstore"
 
 	"github.com/zitadel/oidc/v3/pkg/client/rp"
 	httphelper "github.com/zitadel/oidc/v3/pkg/http"
@@ -45,6 +49,8 @@ type tokenRequest struct {
 
 type World struct {
 	pkce      bool
+	via, disc string
+	opKey     *modelstore.SignKey
 	ch, other *httphelper.CookieHandler
 	party     rp.RelyingParty
 	login     http.Handler
@@ -62,13 +68,41 @@ type World struct {
 	jar map[string]map[string]string // browser -> cookie name -> value
 }
 
+func jsonResp(r *http.Request, doc any) *http.Response {
+	b, _ := json.Marshal(doc)
+	return &http.Response{StatusCode: 200, Header: http.Header{"Content-Type": {"application/json"}}, Body: io.NopCloser(strings.NewReader(string(b))), Request: r}
+}
+
 func (w *World) RoundTrip(r *http.Request) (*http.Response, error) {
+	switch r.URL.Path {
+	case "/.well-known/openid-configuration":
+		doc := M{"issuer": fakeOP, "authorization_endpoint": fakeOP + "/authorize", "token_endpoint": fakeOP + "/token", "jwks_uri": fakeOP + "/keys",
+			"id_token_signing_alg_values_supported": []string{"ES256"}, "response_types_supported": []string{"code"}, "subject_types_supported": []string{"public"}}
+		switch w.disc {
+		case "s256":
+			doc["code_challenge_methods_supported"] = []string{"S256"}
+		case "plainOnly":
+			doc["code_challenge_methods_supported"] = []string{"plain"}
+		}
+		return jsonResp(r, doc), nil
+	case "/keys":
+		return jsonResp(r, jose.JSONWebKeySet{Keys: []jose.JSONWebKey{{Key: w.opKey.Pub, KeyID: w.opKey.KID, Use: "sig", Algorithm: "ES256"}}}), nil
+	}
 	body, _ := io.ReadAll(r.Body)
 	form, _ := url.ParseQuery(string(body))
 	w.mu.Lock()
 	w.tokenReqs = append(w.tokenReqs, tokenRequest{form: form})
 	w.mu.Unlock()
 	resp := `{"access_token":"at-` + fmt.Sprint(len(w.tokenReqs)) + `","token_type":"Bearer","expires_in":300}`
+	if w.via == "oidc" {
+		// a relying party built by discovery verifies the ID token of the response
+		now := time.Now().Unix()
+		claims, _ := json.Marshal(M{"iss": fakeOP, "sub": "user-1", "aud": []string{clientID}, "exp": now + 600, "iat": now - 1, "auth_time": now - 1})
+		signer, _ := jose.NewSigner(jose.SigningKey{Algorithm: jose.ES256, Key: &jose.JSONWebKey{Key: w.opKey.Priv, KeyID: w.opKey.KID}}, (&jose.SignerOptions{}).WithType("JWT"))
+		jws, _ := signer.Sign(claims)
+		idt, _ := jws.CompactSerialize()
+		resp = `{"access_token":"at-` + fmt.Sprint(len(w.tokenReqs)) + `","token_type":"Bearer","expires_in":300,"id_token":"` + idt + `"}`
+	}
 	return &http.Response{StatusCode: 200, Header: http.Header{"Content-Type": {"application/json"}}, Body: io.NopCloser(strings.NewReader(resp)), Request: r}, nil
 }
 
@@ -80,8 +114,14 @@ func key(seed byte, n int) []byte {
 	return b
 }
 
-func NewWorld(pkce bool, rng *rand.Rand) *World {
-	w := &World{pkce: pkce, attempts: map[string]*attempt{}, byName: map[string]*attempt{}, jar: map[string]map[string]string{"b1": {}, "b2": {}}}
+func NewWorld(pkce bool, via, disc string, rng *rand.Rand) *World {
+	if via == "" {
+		via = "oauth"
+	}
+	if disc == "" {
+		disc = "s256"
+	}
+	w := &World{pkce: pkce, via: via, disc: disc, opKey: modelstore.GenKey("rp-fake-op", jose.ES256), attempts: map[string]*attempt{}, byName: map[string]*attempt{}, jar: map[string]map[string]string{"b1": {}, "b2": {}}}
 	w.ch = httphelper.NewCookieHandler(key(1, 32), key(40, 32), httphelper.WithUnsecure())
 	w.other = httphelper.NewCookieHandler(key(90, 32), key(140, 32), httphelper.WithUnsecure())
 	cfg := &oauth2.Config{ClientID: clientID, ClientSecret: "secret", RedirectURL: redirect, Scopes: scopes,
@@ -102,7 +142,13 @@ func NewWorld(pkce bool, rng *rand.Rand) *World {
 	if pkce {
 		opts = append(opts, rp.WithPKCE(w.ch))
 	}
-	party, err := rp.NewRelyingPartyOAuth(cfg, opts...)
+	var party rp.RelyingParty
+	var err error
+	if via == "oidc" {
+		party, err = rp.NewRelyingPartyOIDC(context.Background(), fakeOP, clientID, "secret", redirect, scopes, opts...)
+	} else {
+		party, err = rp.NewRelyingPartyOAuth(cfg, opts...)
+	}
 	if err != nil {
 		panic(err)
 	}
@@ -241,6 +287,11 @@ func (w *World) Callback(a M) M {
 		q.Set("state", state)
 	}
 	r := httptest.NewRequest(http.MethodGet, "https://rp.example.test/auth/callback?"+q.Encode(), nil)
+	if m, _ := a["method"].(string); m == "POST" {
+		// response_mode=form_post: the user agent POSTs the parameters in the body
+		r = httptest.NewRequest(http.MethodPost, "https://rp.example.test/auth/callback", strings.NewReader(q.Encode()))
+		r.Header.Set("Content-Type", "application/x-www-form-urlencoded")
+	}
 	cookies := map[string]string{}
 	for k, v := range w.jar[b] {
 		cookies[k] = v
@@ -377,8 +428,10 @@ func Replay(in, out string, seed int64, nRandom, depth int) (lines int, err erro
 				return 0, err
 			}
 			pk, _ := b.Cfg["pkce"].(bool)
-			w := NewWorld(pk, rng)
-			emit(M{"op": "Reset", "run": b.ID, "cfg": M{"pkce": pk}, "args": M{}, "out": M{}})
+			via, _ := b.Cfg["via"].(string)
+			disc, _ := b.Cfg["disc"].(string)
+			w := NewWorld(pk, via, disc, rng)
+			emit(M{"op": "Reset", "run": b.ID, "cfg": M{"pkce": pk, "via": w.via, "disc": w.disc}, "args": M{}, "out": M{}})
 			for i, s := range b.Steps {
 				var o M
 				if s.Op == "StartLogin" {
@@ -394,9 +447,9 @@ func Replay(in, out string, seed int64, nRandom, depth int) (lines int, err erro
 	forms := []string{"exact", "exact", "exact", "exact", "prefix", "suffix", "empty"}
 	for i := 0; i < nRandom; i++ {
 		pk := rng.Intn(3) != 0
-		w := NewWorld(pk, rng)
+		w := NewWorld(pk, []string{"oauth", "oidc"}[rng.Intn(2)], []string{"s256", "none", "plainOnly"}[rng.Intn(3)], rng)
 		id := fmt.Sprintf("rand-%d-%d", seed, i)
-		emit(M{"op": "Reset", "run": id, "cfg": M{"pkce": pk}, "args": M{}, "out": M{}})
+		emit(M{"op": "Reset", "run": id, "cfg": M{"pkce": pk, "via": w.via, "disc": w.disc}, "args": M{}, "out": M{}})
 		n := 0
 		for s := 0; s < depth; s++ {
 			b := []string{"b1", "b2"}[rng.Intn(2)]
@@ -418,7 +471,8 @@ func Replay(in, out string, seed int64, nRandom, depth int) (lines int, err erro
 					}
 				}
 			}
-			a := M{"b": b, "att": att, "form": forms[rng.Intn(len(forms))], "tamper": tampers[rng.Intn(len(tampers))], "err": rng.Intn(5) == 0}
+			a := M{"b": b, "att": att, "form": forms[rng.Intn(len(forms))], "tamper": tampers[rng.Intn(len(tampers))], "err": rng.Intn(5) == 0,
+				"method": []string{"GET", "GET", "POST"}[rng.Intn(3)]}
 			emit(M{"op": "Callback", "run": id, "step": s + 1, "args": a, "out": w.Callback(a)})
 		}
 	}
@@ -431,7 +485,7 @@ func Replay(in, out string, seed int64, nRandom, depth int) (lines int, err erro
 func Stress(out io.Writer, seed int64, rounds int) (events int) {
 	rng := rand.New(rand.NewSource(seed))
 	enc := json.NewEncoder(out)
-	w := NewWorld(true, rng)
+	w := NewWorld(true, "oauth", "s256", rng)
 	slow := rp.WithURLParam("custom", "x")
 	h := rp.AuthURLHandler(func() string {
 		w.mu.Lock()
@@ -439,7 +493,7 @@ func Stress(out io.Writer, seed int64, rounds int) (events int) {
 		w.nState++
 		return fmt.Sprintf("st%d-stress", w.nState)
 	}, w.party, slow, rp.WithPromptURLParam("login"))
-	enc.Encode(M{"op": "Reset", "run": "stress", "cfg": M{"pkce": true}, "args": M{}, "out": M{}})
+	enc.Encode(M{"op": "Reset", "run": "stress", "cfg": M{"pkce": true, "via": "oauth", "disc": "s256"}, "args": M{}, "out": M{}})
 	events++
 	type res struct {
 		o M
@@ -484,7 +538,7 @@ func Stress(out io.Writer, seed int64, rounds int) (events int) {
 		wg.Wait()
 		for _, o := range results {
 			// each stress login is judged on its own: the monitor is reset before it (nAtt = 0, so the attempt is t1)
-			enc.Encode(M{"op": "Reset", "run": "stress", "cfg": M{"pkce": true}, "args": M{}, "out": M{}})
+			enc.Encode(M{"op": "Reset", "run": "stress", "cfg": M{"pkce": true, "via": "oauth", "disc": "s256"}, "args": M{}, "out": M{}})
 			enc.Encode(M{"op": "StartLogin", "run": "stress", "step": i, "args": M{"b": "b1"}, "out": o})
 			events += 2
 		}
